@@ -4,6 +4,7 @@ import (
 	"bytes"
 	"context"
 	"encoding/hex"
+	"encoding/json"
 	"fmt"
 	"math/big"
 	"strings"
@@ -123,7 +124,33 @@ func p2pkhOf(priv *bec.PrivateKey) *bscript.Script {
 	return bscript.NewFromBytes(gen.P2PKH(h))
 }
 
+// mkQuote builds the quote object of a flow. One in three has a history: the object carried other
+// (lower) rates, was used for an earlier transaction, and was then refreshed in place from a fee
+// document with the rates wanted now (a wallet keeping one quote object per miner).
 func mkQuote(q c20Quote) *bt.FeeQuote {
+	fq := mkQuotePlain(q)
+	if (q.Sat+q.Bytes+q.Label+q.Relay+q.DataMul)%3 != 1 {
+		return fq
+	}
+	old := bt.NewFeeQuote()
+	for _, t := range []bt.FeeType{bt.FeeTypeStandard, bt.FeeTypeData} {
+		u := bt.FeeUnit{Satoshis: q.Sat / 10, Bytes: q.Bytes}
+		old.AddQuote(t, &bt.Fee{FeeType: t, MiningFee: u, RelayFee: u})
+	}
+	ok := false
+	mon.TryQuiet(func() {
+		quoteUsedBefore(old)
+		if js, err := json.Marshal(fq); err == nil && json.Unmarshal(js, old) == nil {
+			ok = true
+		}
+	})
+	if !ok {
+		return fq
+	}
+	return old
+}
+
+func mkQuotePlain(q c20Quote) *bt.FeeQuote {
 	fq := bt.NewFeeQuote()
 	for _, t := range []bt.FeeType{bt.FeeTypeStandard, bt.FeeTypeData} {
 		label := t
